@@ -1053,6 +1053,121 @@ def rng_repro(case):
     return []
 
 
+# ---------------------------------------------------------------------------------------------
+# exposures of different tensor shape in the life of one detector (family `polar`): a polarised (Jones-vector)
+# wavefront has a power of shape (2, N); its image is the tensor field of the two binned components, the noise-free
+# NoisyDetector must agree with the NoiselessDetector on it, and whatever is integrated *afterwards* (scalar light,
+# nothing at all) must be read out as if the detector were new.
+
+def gen_polar(rng, big):
+    ndim = 1 if rng.random() < 0.2 else 2
+    dims = [int(rng.integers(1, 4)) for _ in range(ndim)]
+    case = {'fam': 'polar', 'dims': dims, 'delta': [float(rng.choice([0.5, 1.0, 2.0])) for _ in range(ndim)],
+            'cls': str(rng.choice(['noiseless', 'noisy-off']))}
+    if rng.random() < 0.3:
+        case['ss'] = [int(rng.integers(1, 4)) for _ in range(ndim)]
+        case['spell'] = 'array'
+        case['s'] = max(case['ss'])
+    else:
+        case['s'] = int(rng.choice([1, 1, 2, 3]))
+    nin = int(np.prod([d * f for d, f in zip(dims, factors(case))]))
+    ops = []
+    for _ in range(int(rng.integers(2, 7))):
+        u = rng.random()
+        dt, w = dyadic(rng, 0.25, 4, 2), float(rng.choice([1.0, 0.5, 2.0, -1.0]))
+        if u < 0.25:
+            ops.append(['read'])
+        elif u < 0.6:
+            ops.append(['pol', [[[dyadic(rng, -2, 2, 2) for _ in range(nin)] for _ in range(2)] for _ in range(2)], dt, w])
+        else:
+            ops.append(['int', [dyadic(rng, 0, 16, 3) for _ in range(nin)], dt, w])
+    if not any(op[0] == 'pol' for op in ops):
+        ops.insert(0, ['pol', [[[dyadic(rng, -2, 2, 2) for _ in range(nin)] for _ in range(2)] for _ in range(2)], 1.0, 1.0])
+    ops += [['read'], ['read']]
+    case['ops'] = ops
+    return case
+
+
+def run_polar(case):
+    """returns (bad, model lines, comparisons [(index of the model's read line, real row)])"""
+    import hcipy
+    bad, lines, cmps = [], [], []
+    dims = case['dims']
+    npix = int(np.prod(dims))
+    grid = hcipy.make_uniform_grid(dims, [d * n for d, n in zip(case['delta'], dims)])
+    try:
+        if case['cls'] == 'noiseless':
+            det = hcipy.NoiselessDetector(grid, sub_arg(case))
+        else:
+            np.random.seed(12345)
+            det = hcipy.NoisyDetector(grid, dark_current_rate=0, read_noise=0, flat_field=0, include_photon_noise=False, subsampling=sub_arg(case))
+    except Exception as e:  # noqa
+        return [('constructor-raises', 'constructing the %s detector raised %s' % (case['cls'], type(e).__name__))], lines, cmps
+    rd = '[' + ','.join(str(d) for d in dims[::-1]) + ']'
+    # per tensor component one model detector: rows[c] = pending integrations (power row, dt, w); None = not part of the exposure
+    pending = []          # list of (rows (1 or 2 lists of floats), dt, w)
+    for k, op in enumerate(case['ops']):
+        if op[0] == 'read':
+            try:
+                im = det.read_out()
+            except Exception as e:  # noqa
+                key = 'tensor-power-readout-raises' if any(len(r) == 2 for r, _, _ in pending) else 'readout-raises'
+                bad.append((key, 'read_out() of a %s detector after %d integrations (%d of a polarised wavefront, power of shape (2, N)) raised %s: %s'
+                            % (case['cls'], len(pending), sum(1 for r, _, _ in pending if len(r) == 2), type(e).__name__, str(e)[:100])))
+                break
+            ncomp = 2 if any(len(r) == 2 for r, _, _ in pending) else 1
+            want = []
+            for c in range(ncomp):
+                acc = [Fraction(0)] * npix
+                for rows, dt, w in pending:
+                    row = rows[c] if len(rows) == 2 else rows[0]        # scalar light is broadcast over the components
+                    b = brute_bins([fr(x) for x in row], dims, factors(case))
+                    acc = [a + x * fr(dt) * fr(w) for a, x in zip(acc, b)]
+                want.append(acc)
+            arr = np.asarray(im, dtype=float)
+            gr = getattr(im, 'grid', None)
+            shape = (2, npix) if ncomp == 2 else (npix,)
+            if arr.shape != shape:
+                bad.append(('readout-shape-after-tensor-exposure' if ncomp == 1 else 'readout-shape',
+                            'read-out %d has shape %r, expected %r (%d pending integrations; polarised exposures earlier in the life of the detector: %d)'
+                            % (k, arr.shape, shape, len(pending), sum(1 for o in case['ops'][:k] if o[0] == 'pol'))))
+                break
+            if gr is None or not (gr is grid or gr == grid):
+                bad.append(('readout-grid', 'read-out %d does not live on the detector grid' % k))
+                break
+            got = arr.reshape(ncomp, npix)
+            scale = max([1.0] + [abs(float(x)) for r in want for x in r])
+            if max([abs(float(a) - float(b)) for rg, rw in zip(got, want) for a, b in zip(rg, rw)] + [0.0]) > TOL * scale:
+                bad.append(('readout-value', 'read-out %d (tensor components: %d) differs from the sum of power*dt*weight' % (k, ncomp)))
+                break
+            for c in range(ncomp):
+                lines.append('C17 new noiseless %s %s' % (model_sub(case), rd))
+                for rows, dt, w in pending:
+                    lines.append('C17 int %s %s %s' % (rat_list(rows[c] if len(rows) == 2 else rows[0]), rat(dt), rat(w)))
+                lines.append('C17 read')
+                cmps.append((len(lines) - 1, [float(x) for x in got[c]]))
+            pending = []
+        else:
+            try:
+                if op[0] == 'pol':
+                    e = hcipy.Field(np.array([np.array(op[1][0][0]) + 1j * np.array(op[1][0][1]), np.array(op[1][1][0]) + 1j * np.array(op[1][1][1])]), det.input_grid)
+                    wf = hcipy.Wavefront(e)
+                    p = np.array(wf.power, dtype=float)
+                    if p.shape != (2, det.input_grid.size):
+                        raise MachineryError('power of a Jones-vector wavefront has shape %r' % (p.shape,))
+                    det.integrate(wf, op[2], op[3])
+                    pending.append(([p[0].tolist(), p[1].tolist()], op[2], op[3]))
+                else:
+                    det.integrate(hcipy.Field(np.array(op[1], dtype=float), det.input_grid), op[2], op[3])
+                    pending.append(([list(op[1])], op[2], op[3]))
+            except MachineryError:
+                raise
+            except Exception as e:  # noqa
+                bad.append(('integrate-raises', 'integrate(%s) raised %s: %s' % ('polarised wavefront' if op[0] == 'pol' else 'scalar power', type(e).__name__, str(e)[:100])))
+                break
+    return bad, lines, cmps
+
+
 def all_bad(obs):
     return [b for o in obs for b in o['bad']]
 
@@ -1269,7 +1384,29 @@ def run(ctx):
         if not bad:
             rg.append((case, len(lines), checks))
             lines += rlines
+    pol = []
+    for k in range(ctx.scale(150, 2000)):
+        case = gen_polar(ctx.rng, big=False)
+        bad, plines, cmps = run_polar(case)
+        for key, what in bad:
+            ctx.violation(key, what, case)
+        ctx.count('polar:' + case['cls'])
+        ctx.count('polar:subsampling:' + ('per-axis' if 'ss' in case else str(case['s'])))
+        ctx.count('polar:polarised-exposures', sum(1 for op in case['ops'] if op[0] == 'pol'))
+        ctx.count('polar:scalar-exposures-after-a-polarised-one', sum(1 for i, op in enumerate(case['ops']) if op[0] == 'int' and any(o[0] == 'pol' for o in case['ops'][:i])))
+        ctx.case(None, nontrivial_key=('polar', tuple(case['dims']), tuple(factors(case)), case['cls'], tuple(op[0] for op in case['ops'])))
+        if not bad:
+            pol.append((case, len(lines), cmps))
+            lines += plines
     out = ctx.model(lines)
+    for case, base, cmps in pol:
+        for idx, got in cmps:
+            ctx.traces_validated += 1
+            resp = out[base + idx]
+            m = parse_rat_list(resp[3:]) if resp.startswith('ok [') else None
+            if m is None or not close_lists(m, got):
+                ctx.disagree('C17 polar component', {'case': case, 'model': resp, 'impl': got})
+                break
     for case, base, checks in rg:
         for idx, img, lam, want in checks:
             ctx.traces_validated += 1
@@ -1301,6 +1438,11 @@ def run(ctx):
 
 
 def replay(ctx, case):
+    if case.get('fam') == 'polar':
+        bad = run_polar(case)[0]
+        for key, what in bad:
+            print('  fails:', key, '-', what)
+        return not bad
     if case.get('fam') == 'rng':
         bad = run_rng_case(case)[0] or rng_repro(case)
         for key, what in bad:
